@@ -25,11 +25,11 @@ var T *testing.T
 const validLifetime = 3600 // seconds
 
 type Sys struct {
-	NClients  int
-	AddrCIDR  string
-	PfxCIDR   string
-	DelegLen  int
-	events    []core.Event
+	NClients int
+	AddrCIDR string
+	PfxCIDR  string
+	DelegLen int
+	events   []core.Event
 }
 
 func NewSys(nclients int, addrCIDR, pfxCIDR string, delegLen int) *Sys {
@@ -52,6 +52,9 @@ func NewSys(nclients int, addrCIDR, pfxCIDR string, delegLen int) *Sys {
 	s.events = append(s.events, core.Event{"op": "ADV", "c": 0, "ia": "", "sid": ""}, core.Event{"op": "CLEAN", "c": 0, "ia": "", "sid": ""})
 	return s
 }
+
+// advStep is one time advance: two of them outlast the valid lifetime.
+const advStep = validLifetime*time.Second/2 + time.Second
 
 func (s *Sys) Name() string {
 	return fmt.Sprintf("dhcp6/c%d/%s+%s-%d", s.NClients, s.AddrCIDR, s.PfxCIDR, s.DelegLen)
@@ -76,7 +79,7 @@ func (s *Sys) Config() map[string]any {
 		"nunits": na, "leaseticks": 2}
 }
 func (s *Sys) Events() []core.Event { return s.events }
-func (s *Sys) Wrap(f func())         { synctest.Test(T, func(t *testing.T) { f() }) }
+func (s *Sys) Wrap(f func())        { synctest.Test(T, func(t *testing.T) { f() }) }
 
 func unitOf(cidr string, alloc int, ip net.IP) int {
 	if ip == nil {
@@ -96,11 +99,11 @@ func unitOf(cidr string, alloc int, ip net.IP) int {
 }
 
 type inst struct {
-	s       *Sys
-	srv     *dhcpv6.Server
-	lastNA  map[int]int
-	lastPD  map[int]int
-	xid     uint32
+	s      *Sys
+	srv    *dhcpv6.Server
+	lastNA map[int]int
+	lastPD map[int]int
+	xid    uint32
 	// history digest that only refines node identity (never an oracle): the contract's ghost
 	// distinguishes offer ages and declined values, so the extracted table must as well
 	offAge map[string]int
@@ -289,7 +292,7 @@ func (in *inst) Apply(ev core.Event) map[string]any {
 				in.offAge[k] = v + 1
 			}
 		}
-		time.Sleep(validLifetime*time.Second/2 + time.Second)
+		time.Sleep(advStep)
 		synctest.Wait()
 		return res("none", -1, -1, -1, -1, true)
 	case "CLEAN":
@@ -311,7 +314,7 @@ func toInt(v any) int {
 
 func (in *inst) Observe() map[string]any {
 	n := in.s.NClients
-	lna, lpd, exp := make([]int, n), make([]int, n), make([]bool, n)
+	lna, lpd, exp, rem := make([]int, n), make([]int, n), make([]bool, n), make([]int, n)
 	for i := range lna {
 		lna[i], lpd[i] = -1, -1
 	}
@@ -326,10 +329,14 @@ func (in *inst) Observe() map[string]any {
 					lpd[c-1] = unitOf(in.s.PfxCIDR, in.s.DelegLen, l.Prefix.IP)
 				}
 				exp[c-1] = !l.ValidEnd.IsZero() && !now.Before(l.ValidEnd)
+				// remaining lifetime in time-advance steps (a fresh lease has cfg.leaseticks of them)
+				if !l.ValidEnd.IsZero() && now.Before(l.ValidEnd) {
+					rem[c-1] = int((l.ValidEnd.Sub(now) + advStep - 1) / advStep)
+				}
 			}
 		}
 	}
-	return map[string]any{"lease_na": lna, "lease_pd": lpd, "expired": exp, "drain_na": []int{-9}, "drain_pd": []int{-9}}
+	return map[string]any{"lease_na": lna, "lease_pd": lpd, "expired": exp, "rem": rem, "drain_na": []int{-9}, "drain_pd": []int{-9}}
 }
 
 func (in *inst) Fingerprint() string {
